@@ -24,4 +24,13 @@ PROPERTIES = {
                 assumptions=["the induction over straight-line programs is the usual one: every operation's postcondition gives valid results and unchanged operands, hence every reachable object is valid; component-constructor clauses are added by the component contracts"], trusted_base=[],
                 level_text="Class invariant valid(q) (unit in table, sign constraint, all name-mangled copies agree) proved as postcondition of every constructor, operator, unary operator and conversion (copy and in place) of all 13 unit classes for all values and all units, with the frame condition that no operator mutates an operand; ValueError is the only rejection.",
                 level_note="Real arithmetic: floating-point underflow of an in-place conversion (a positive subnormal becoming 0.0) is outside tier R and is reported by the thorough tier's bit-precise search when built."),
+    "C08": dict(modules=["contracts.motor"], level="proof", uses_unit_contracts=True,
+                explanation="The real DCMotor.__init__/pwm setter/compute_torque/compute_electric_current run over abstract "
+                            "quantities with symbolic values and symbolic units; every path's result is proved equal to the "
+                            "characteristic written in the property; the 'hence' consequences are lemmas over the spec functions.",
+                assumptions=["quantities are abstract (SymQ): callers are verified against the unit layer's contract "
+                             "(pycv/absunits.py), which is itself proved against the real unit classes in the same run"],
+                trusted_base=["transcription of the C08 law into contracts/motor.py spec_torque/spec_current"],
+                level_text="Unbounded proof in real arithmetic for all motor constants in all units, all speeds and all duty cycles: every path of the real compute_torque / compute_electric_current equals the documented piecewise characteristic (dead zone exactly |D| <= i0/imax, mirrored branch, no-current-data branch); D=1 end points, continuity at the dead-zone boundary and odd symmetry are proved as lemmas; the unit-layer contracts used are discharged against the real unit classes in the same run.",
+                level_note="Real arithmetic: the floating-point neighbours of the dead-zone boundary (D*imax - i0 rounding to 0) are outside tier R; proxies and z3 trusted."),
 }
